@@ -27,13 +27,14 @@ MANIFEST_ENTRY = {
             "the recorded finding); (declarations) the variable declarations of a function block -- one block per variable with its class "
             "and qualifier, elementary or named type, constant or enumerated initial value, edge inputs -- are read back exactly "
             "(C10_declarations_parse_render; a negative initial value is refuted); (libraries) TYPE declarations -- arrays, integer subranges, enumerations, elementary types with a default, late-bound names, each written in a TYPE block of its own -- function blocks and programs are read back as the same flat library and rendering again gives the same tokens (C10_library_parse_render, C10_library_fixed_point; a negative bound is refuted). The renderer model is compared token for token with write_to_string. "
+            "(times of day) the seconds text the renderer writes for TIME_OF_DAY# / DATE_AND_TIME# -- two digits, '.', the microseconds as six digits without trailing zeros, at least two -- is read back by the literal model as exactly that time, for every hour, minute, second and microsecond (C10_time_of_day_round_trip; the digits-level fact by a complete sweep of the 10^6 fractions inside Coq); the model's text is compared with write_to_string. "
             "For declarations and the remaining statement forms the round trip is decided by search: every generated unit and every fixture is parsed, rendered, re-parsed and compared with Rust's ==; the second "
             "rendering must equal the first. The renderer has several recorded defects (known findings) whose classes are excluded by "
             "predicates on the unit and on the way the round trip fails.",
     "note": "Trusted: Coq kernel, harness op roundtrip (parse_program, write_to_string, Rust ==). Known findings (the repository's golden "
             "files pin these renderings, so they are recorded, not repaired): negative literals rendered '- 5'; reals with integral value "
             "rendered as integers; array initial values without brackets / dropped; structure-initialization type declarations without "
-            "base type; TASK INTERVAL rendered as INTERNAL. No axioms.",
+            "base type; TASK INTERVAL rendered as INTERNAL; durations finer than a millisecond and times finer than a microsecond. No axioms.",
 }
 TRUSTED = [
     "Coq 8.16.1 kernel",
@@ -216,6 +217,10 @@ def search(run, info):
                 run.cov["disagreements_checked"] += 1
                 run.violation("correspondence", "renderer model and write_to_string differ: model %r, renderer %r" % (" ".join(model_toks)[:150], " ".join(impl_toks)[:150]),
                               {"input": {"text": t}}, no_input=True)
+    # ---- times of day: the model of the renderer's seconds text (C10_time_of_day_round_trip) against write_to_string, and the
+    #      round trip itself: fractions of one to six digits with and without leading / trailing zeros; finer than a microsecond
+    #      is the recorded finding ----
+    tod_n = time_literals(run, info, wd, stats)
     # ---- the statement renderer model (C10_statements_parse_render) against write_to_string ----
     st_render_n = st_corr.check_render(run, info, 200 if run.tier == "quick" else 4000, "c10")
     # ... and for function blocks with variable declarations (C10_declarations_parse_render)
@@ -223,6 +228,7 @@ def search(run, info):
     # ... and for whole libraries with TYPE blocks, function blocks and programs (C10_library_parse_render)
     lib_render_n = st_corr.check_render_lib2(run, info, 200 if run.tier == "quick" else 4000, "c10")
     return {"coverage": {
+        "time_of_day_texts_compared_with_model": tod_n,
         "statement_renderer_outputs_compared_with_model": st_render_n,
         "declaration_renderer_outputs_compared_with_model": decl_render_n,
         "library_renderer_outputs_compared_with_model": lib_render_n,
@@ -232,6 +238,63 @@ def search(run, info):
                 "units) the unit contains the construct; non-trivial = every accepted source, distinct by text",
         "outcomes": stats,
         "exhaustive": False}}
+
+
+def time_literals(run, info, wd, stats):
+    rng = run.rng
+    fracs = ["", "0", "5", "05", "50", "005", "500", "0005", "00005", "000005", "000001", "999999", "123456", "12345", "100000", "010000",
+             "001000", "25", "250", "2500", "000010", "7", "07", "007"]
+    for _ in range(40 if run.tier == "quick" else 2000):
+        n = rng.randint(1, 6)
+        fracs.append("".join(rng.choice("0000123456789") for _ in range(n)))
+    fine = ["0000005", "1234567", "0000001", "123456789", "5000001"]       # finer than a microsecond: kept by the library, not written
+    cases = []
+    for f in fracs + fine:
+        h, m, sec = rng.randrange(24), rng.randrange(60), rng.randrange(60)
+        lit = "%02d:%02d:%02d%s" % (h, m, sec, "." + f if f else "")
+        if rng.random() < 0.5:
+            lit = "%d:%d:%d%s" % (h, m, sec, "." + f if f else "")
+        kind = rng.choice(["TOD", "TIME_OF_DAY", "DT"])
+        src = "PROGRAM p\nVAR\n  t : %s := %s#%s%s;\nEND_VAR\nEND_PROGRAM\n" % (
+            "DATE_AND_TIME" if kind == "DT" else "TIME_OF_DAY", "DATE_AND_TIME" if kind == "DT" else kind, "2024-02-29-" if kind == "DT" else "", lit)
+        micro = int((f + "000000")[:6]) if f else 0
+        cases.append((src, h, m, sec, micro, f in fine))
+    res = vlib.run_impl([{"id": i, "op": "roundtrip", "text": hexs(c[0])} for i, c in enumerate(cases)], wd, per_case_timeout=30)
+    model = vlib.run_model([("lit", i, ["todtext", hexs(str(c[1])), hexs(str(c[2])), hexs(str(c[3])), hexs(str(c[4]))]) for i, c in enumerate(cases)], wd) \
+        if info.get("extract_ok") else {}
+    known_keys = {x["key"] for x in run.known}
+    n = 0
+    for i, ((src, h, m, sec, micro, is_fine), r) in enumerate(zip(cases, res)):
+        run.count(("tod", src), True, "time-of-day")
+        if "panic" in r or "abort" in r or r.get("parse1") != "ok" or r.get("render1") in (None, "err"):
+            run.violation("impl-violates-property", "a time of day literal is not accepted / rendered: %r" % (r.get("panic") or r.get("abort") or r.get("diags"),),
+                          {"input": {"text": src}})
+            continue
+        out = bytes.fromhex(r["render1"]).decode("utf-8", "replace")
+        mm = re.search(r"#(?:\d{4}-\d{2}-\d{2}-)?\d{2}:\d{2}:([0-9.]+)\s*;", out)
+        ok = r.get("parse2") == "ok" and r.get("equal") and r.get("fixed_point")
+        if is_fine:
+            if not ok and "render-fractional-time-values" in known_keys and r.get("parse2") == "ok":
+                run.known_finding("render-fractional-time-values", next(f["class"] + ": " + f["failure_mode"] for f in run.known if f["key"] == "render-fractional-time-values"))
+                stats["known:render-fractional-time-values"] = stats.get("known:render-fractional-time-values", 0) + 1
+            elif not ok:
+                run.violation("impl-violates-property", "a time of day finer than a microsecond: the rendered text is rejected", {"input": {"text": src}, "rendered": out})
+            continue
+        if not ok:
+            run.violation("impl-violates-property", "a time of day does not survive render and re-parse (rendered %r)" % (mm.group(0) if mm else out[:120]),
+                          {"input": {"text": src}, "rendered": out})
+            continue
+        mo = model.get(str(i))
+        if mo and mm:
+            n += 1
+            run.cov["traces_validated_against_impl"] += 1
+            mtext = "".join(chr(int(x)) for x in mo[0].split(".")) if mo[0] else ""
+            back = mo[1:]
+            if mtext != mm.group(1) or back != [str(h), str(m), str(sec), str(micro * 1000)]:
+                run.cov["disagreements_checked"] += 1
+                run.violation("correspondence", "time-of-day renderer model and write_to_string differ: model %r (read back %r), renderer %r" % (mtext, back, mm.group(1)),
+                              {"input": {"text": src}, "obligation": "C10_time_of_day_round_trip"}, no_input=True)
+    return n
 
 
 def replay(run, rep):
